@@ -240,6 +240,52 @@ def rule_table(rep: Report, repo: Repo, used: Set[str]) -> None:
             rep.fail('C12.TABLE', f'entry {op}', 'operator without a reference meaning', site)
 
 
+def _unbounded_decimal_decoder(repo: Repo, fname: str) -> Optional[str]:
+    """None when the module-level function `fname(p)` is int(p) without the digit limit: `try: return int(p)` with a ValueError
+    handler that rebuilds the value from chunks of K <= 640 digits (the smallest limit python can be configured with), most
+    significant first: value = value * 10 ** len(chunk) + int(chunk) over range(0, len(p), K). Otherwise the reason."""
+    if not repo.has_func(PARSER, fname):
+        return f'{fname} is not a function of the parser module'
+    fn = repo.func(PARSER, fname)
+    ps = [a.arg for a in fn.args.args]
+    body = [st for st in fn.body if not (isinstance(st, ast.Expr) and isinstance(st.value, ast.Constant))]
+    if len(ps) != 1 or len(body) != 1 or not isinstance(body[0], ast.Try):
+        return 'not `try: return int(p)` with a fallback'
+    p_, tr = ps[0], body[0]
+    if [norm(x) for x in tr.body] != [f'return int({p_})'] or len(tr.handlers) != 1 or norm(tr.handlers[0].type or ast.Name(id='*')) != 'ValueError' \
+            or tr.orelse or tr.finalbody:
+        return 'the fast path is not `return int(p)` guarded by `except ValueError`'
+    hb = tr.handlers[0].body
+    loops = [x for x in hb if isinstance(x, ast.For)]
+    if len(loops) != 1 or not isinstance(loops[0].target, ast.Name):
+        return 'the fallback is not one loop over chunks'
+    lp = loops[0]
+    iv = lp.target.id
+    it = lp.iter
+    if not (isinstance(it, ast.Call) and dotted(it.func) == 'range' and len(it.args) == 3 and norm(it.args[0]) == '0' and norm(it.args[1]) == f'len({p_})'
+            and isinstance(it.args[2], ast.Constant) and isinstance(it.args[2].value, int) and 0 < it.args[2].value <= 640):
+        return 'the chunk loop is not range(0, len(p), K) with a literal 0 < K <= 640'
+    K = it.args[2].value
+    from ..pyfacts import resolve_names
+    ups = [x for x in lp.body if isinstance(x, (ast.Assign, ast.AugAssign))]
+    acc = [x for x in ups if isinstance(x, ast.Assign) and isinstance(x.targets[0], ast.Name) and any(
+        isinstance(y, ast.Name) and y.id == x.targets[0].id for y in ast.walk(x.value))]
+    if len(acc) != 1:
+        return 'no single accumulator update in the chunk loop'
+    v = acc[0].targets[0].id            # type: ignore[union-attr]
+    rhs = cn(resolve_names(fn, acc[0].value, allow_calls=True))
+    chunk = f'{p_}[{iv}:{iv} + {K}]'
+    want_rhs = {cn(ast.parse(t, mode='eval').body) for t in (f'{v} * 10 ** len({chunk}) + int({chunk})', f'int({chunk}) + {v} * 10 ** len({chunk})',
+                                                             f'10 ** len({chunk}) * {v} + int({chunk})')}
+    if rhs not in want_rhs:
+        return f'accumulator update `{rhs}` is not value * 10 ** len(chunk) + int(chunk) with chunk = {chunk}'
+    init = [norm(x) for x in hb if isinstance(x, ast.Assign) and norm(x.targets[0]) == v]
+    rets = [norm(x) for x in hb if isinstance(x, ast.Return)]
+    if init != [f'{v} = 0'] or rets != [f'return {v}']:
+        return f'the accumulator does not start at 0 / is not what is returned ({init}, {rets})'
+    return None
+
+
 def rule_one_table(rep: Report, repo: Repo) -> None:
     rep.rule('C12.ONE-TABLE', 'the three evaluation paths (parse-time folding, partial evaluation, final evaluation) all apply '
              'op_string_to_function[op] to the operands in order and never special-case an operator, so the stage at which '
@@ -335,6 +381,15 @@ def rule_literals(rep: Report, repo: Repo) -> None:
             want, kind = 't.value = int(t.value, 2)', 'bin'
         else:
             want, kind = 't.value = int(t.value)', 'dec'
+            # python's int(str) refuses more than 4300 decimal digits (ValueError): plain int() decodes a decimal literal only where
+            # the token is known to be one character; a longer token goes through a decoder without that limit (finding F16)
+            if 'len(t.value) < 2' not in c:
+                m_ = re.fullmatch(r't\.value = (\w+)\(t\.value\)', o.effects[0]) if len(o.effects) == 1 else None
+                why = _unbounded_decimal_decoder(repo, m_.group(1)) if m_ and m_.group(1) != 'int' else 'plain int(): limited to 4300 digits'
+                if why is None:
+                    want = o.effects[0]
+                else:
+                    bad.append(f'decimal literal decoder {o.effects}: {why}')
         kinds.add(kind)
         if o.effects != [want] or o.result != ('return', 't'):
             bad.append(f'{sorted(c)} -> {o.effects}')
